@@ -13,6 +13,7 @@ verus! {
 //@include spec/row.spec.rs
 //@include spec/rowview.spec.rs
 //@include spec/expand.spec.rs
+//@include spec/expand_closed.spec.rs
 //@include spec/stmt.spec.rs
 //@include spec/shape.spec.rs
 
